@@ -1,5 +1,7 @@
--- Root of the `BearVerif` library: everything that `lake build` must check.
+-- Root of the `BearVerif` library: everything that `./check --setup` (lake build) must check.
 import BearVerif.Core.Sexp
+import BearVerif.Core.Loop
+import BearVerif.Extracted.Claw
 import BearVerif.Core.Claw
 import BearVerif.Lemmas.Claw
 import BearVerif.Props.C06
